@@ -22,6 +22,9 @@ func outcomeKey(impl string) string {
 
 // chk runs one CheckMnemonic/IsMnemonicValid op.
 func (c *Ctx) chk(class string, l int64, s string) (impl string, specOK bool) {
+	if !fitsInt(l) {
+		return "skipped: the Language value does not fit this build's int", false
+	}
 	op := fmt.Sprintf("chk %d %s", l, hx([]byte(s)))
 	m, sp := c.drv.Ask(op)
 	ss, sp := field(sp, "ss")
@@ -151,6 +154,23 @@ func propC02(c *Ctx) {
 				// NFKD-normalised space-joined form (what a wallet stores)
 				c.chk("gen-nfkd:"+class, l, norm.NFKD.String(s))
 			})
+		}
+	}
+	// the same sentence asked under OTHER languages first (where it is invalid), then under its own, then
+	// again under another: an answer remembered under a key that forgets the language is returned for the
+	// wrong one.  Also sentences valid under two lists at once (the two Chinese lists share 1275 words).
+	for li := range langVals {
+		l := int64(langVals[li])
+		for _, n := range entSizes {
+			s := strings.ReplaceAll(c.specSentence(l, c.randBytes(n)), "　", " ")
+			o1 := int64(langVals[(li+1+c.rng.Intn(9))%10])
+			o2 := int64(langVals[(li+1+c.rng.Intn(9))%10])
+			c.chk("cross-language:other-first", o1, s)
+			c.chk("cross-language:own", l, s)
+			c.chk("cross-language:other-after", o2, s)
+			c.chk("cross-language:own-again", l, s)
+			c.chk("cross-language:unsupported", -1, s)
+			c.chk("cross-language:own-again", l, s)
 		}
 	}
 	// every word of every list at some position (thorough: all; quick: a slice)
